@@ -65,7 +65,10 @@ def var_owners(rec) -> Dict[str, Any]:
     def visit(e, who):
         if not isinstance(e, tuple):
             return
-        if e and e[0] in ("Load", "Store", "Ref", "Index"):
+        if e and e[0] == "DynSet":
+            owners[e[1]] = "*"
+            owners[e[2]] = "*"
+        if e and e[0] in ("Load", "Store", "Ref", "SlotIndex"):
             v = e[1]
             if v in owners and owners[v] != who:
                 owners[v] = "*"
@@ -224,6 +227,30 @@ class RefEval:
         v = self.ev(e[2], fr)
         self.store(e[1], v, fr)
         return None
+
+    def ev_DynSet(self, e, fr):
+        self.globals["@" + e[1]] = e[2]
+        return None
+
+    def ev_DynLoad(self, e, fr):
+        tgt = self.globals.get("@" + e[1])
+        if tgt is None:
+            raise HarnessError("dynamic variable used before set_index")
+        return self.load(tgt, fr)
+
+    def ev_DynStore(self, e, fr):
+        v = self.ev(e[2], fr)
+        tgt = self.globals.get("@" + e[1])
+        if tgt is None:
+            raise HarnessError("dynamic variable used before set_index")
+        self.store(tgt, v, fr)
+        return None
+
+    def ev_SlotIndex(self, e, fr):
+        d = self.rec["vars"][e[1]]
+        if d.get("slot") is None:
+            raise HarnessError("SlotIndex of an automatically numbered variable has no reference value")
+        return U(d["slot"])
 
     def ev_Param(self, e, fr):
         return fr.params[e[1]]
